@@ -255,6 +255,25 @@ func (it *Interp) intrinsic(name string, fn *ssa.Function, a []Val) Val {
 		}
 		rest := append([]Val(nil), (*sl.Arr)[1:sl.Len]...)
 		return &SliceV{Arr: &rest, Len: len(rest), Cap: len(rest)}
+	case "MapOrder":
+		// iteration order of every later range-over-map on this path: 0 insertion order, 1 reversed, k>=2 rotated by k-1
+		k := it.concreteInt(a[0], "map order")
+		p.mapOrder = func(it *Interp, es []mapEntry) []mapEntry {
+			n := len(es)
+			out := make([]mapEntry, n)
+			for i := range es {
+				switch {
+				case k == 0:
+					out[i] = es[i]
+				case k == 1:
+					out[i] = es[n-1-i]
+				default:
+					out[i] = es[(i+k-1)%n]
+				}
+			}
+			return out
+		}
+		return nil
 	case "Tier":
 		if it.ex.cfg.Tier == "thorough" {
 			return BVi(64, 1)
